@@ -55,7 +55,7 @@
 //! the credit never comes — that is the multiplexor's behaviour.
 
 use pvh::exec::Flag;
-use pvh::muxsim::{Sim, SimOpts};
+use pvh::muxsim::{Sim, SimOpts, hexz, unhexz};
 use pvh::{Args, Driver, FailKind, Report, Rng, Tier, catch, fnv, hex, hexd, json, shrink_list, unhex};
 use std::collections::VecDeque;
 use std::future::Future;
@@ -86,6 +86,9 @@ enum Step {
     PeerRead(usize),
     Abort,
     Coop,
+    /// drive to quiescence: the peer reads whatever arrives (which produces the `Acknowledge`s), the local
+    /// side fires its `p1` wake-ups, the bridge is polled whenever (and only when) it is woken
+    Drain,
 }
 
 #[derive(Clone, Debug, PartialEq, Eq)]
@@ -151,6 +154,7 @@ fn step_tok(s: &Step) -> String {
         Step::PeerRead(n) => format!("pread:{n}"),
         Step::Abort => "abort".into(),
         Step::Coop => "coop".into(),
+        Step::Drain => "drain".into(),
     }
 }
 
@@ -198,6 +202,7 @@ fn parse_step(t: &str) -> Option<Step> {
         "prst" => Step::PeerRst,
         "abort" => Step::Abort,
         "coop" => Step::Coop,
+        "drain" => Step::Drain,
         _ => {
             if let Some(h) = t.strip_prefix("pw:") {
                 Step::PeerWrite(unhex(h)?)
@@ -208,7 +213,29 @@ fn parse_step(t: &str) -> Option<Step> {
     })
 }
 
+/// Bytes a fill script hands out before its first end-of-file answer.
+fn lead_total<'a>(script: impl Iterator<Item = &'a Ans<Vec<u8>>>) -> usize {
+    let mut n = 0;
+    for a in script {
+        match a {
+            Ans::Ready(d) if d.is_empty() => break,
+            Ans::Ready(d) => n += d.len(),
+            _ => {}
+        }
+    }
+    n
+}
+
+/// From this many scripted local bytes on a case is "huge": pattern runs are written as `z` tokens everywhere
+/// (wire, trace, per-poll line), it is judged by the monitors only (no model comparison: the model's byte
+/// strings are linked lists) and it is not shrunk answer by answer.
+const HUGE_FROM: usize = 1 << 20;
+
 impl Case {
+    fn is_huge(&self) -> bool {
+        self.lfill.iter().map(|a| if let Ans::Ready(d) = a { d.len() } else { 0 }).sum::<usize>() >= HUGE_FROM
+    }
+
     fn to_text(&self) -> String {
         let j = |v: Vec<String>| v.join(" ");
         format!(
@@ -284,10 +311,10 @@ enum LCall {
 }
 
 impl LCall {
-    fn tok(&self) -> String {
+    fn tok(&self, compact: bool) -> String {
         match self {
-            // (the call log is compared with the model's: always plain hex)
-            LCall::Fill(Ans::Ready(d)) if !d.is_empty() => format!("F:d:{}", hex(d)),
+            // (the call log is compared with the model's: always plain hex; huge cases are not compared)
+            LCall::Fill(Ans::Ready(d)) if !d.is_empty() && !compact => format!("F:d:{}", hex(d)),
             LCall::Fill(a) => format!("F:{}", fill_tok(a)),
             LCall::Consume(n) => format!("C:{n}"),
             LCall::Write(len, a) => format!("W:{len}:{}", write_tok(a)),
@@ -344,6 +371,10 @@ struct Shared {
     offered_end: usize,
     /// the script has answered an operation with an error (or a zero-length write)
     local_err: bool,
+    /// scripted bytes (before the script's first end-of-file) that `coop` threw away unread
+    dropped: usize,
+    /// the last `poll_fill_buf` answered `Pending` (the local source holds the task's waker for this direction)
+    fill_parked: bool,
 }
 
 impl Shared {
@@ -395,6 +426,7 @@ impl AsyncBufRead for ScriptedLocal {
         if sh.eof_given {
             sh.fill_after_eof = true;
         }
+        sh.fill_parked = false;
         if !me.buf.is_empty() {
             // a buffered reader hands the unconsumed bytes out again
             sh.calls.push(LCall::Fill(Ans::Ready(me.buf.clone())));
@@ -415,6 +447,7 @@ impl AsyncBufRead for ScriptedLocal {
             }
             Ans::Pending(later) => {
                 sh.keep(SLOT_FILL, cx, later);
+                sh.fill_parked = true;
                 Poll::Pending
             }
             Ans::Err(c) => {
@@ -581,6 +614,14 @@ struct World {
     frame_starts: Vec<(usize, bool)>,
     /// sum of the counts of the `Acknowledge` frames `B` has put on the wire for the flow since the handshake
     acked: u64,
+    /// a huge case: long pattern runs are written as `z` tokens (wire, trace, per-poll line)
+    compact: bool,
+    /// everything the peer application has read from its stream, in order
+    peer_got: Vec<u8>,
+    /// bytes the local fill script hands out before its first end-of-file
+    src_total: usize,
+    /// the case has a `drain` step (the end-of-case delivery check applies)
+    drained: bool,
 }
 
 const OP_ACK: u8 = 1;
@@ -589,7 +630,7 @@ const OP_FIN: u8 = 3;
 const OP_PUSH: u8 = 4;
 
 fn parse_frame(hexs: &str) -> Option<(u8, u32, Vec<u8>)> {
-    let b = unhex(hexs)?;
+    let b = unhexz(hexs)?;
     if b.len() < 5 {
         return None;
     }
@@ -625,6 +666,11 @@ fn abbr(line: &str) -> String {
     out
 }
 
+/// A byte string for a failure description (what `abbr` would make of its hex, without building megabytes of it).
+fn show(b: &[u8]) -> String {
+    if b.len() > 2048 { format!("{}..({} bytes)..{}", hex(&b[..16]), b.len(), hex(&b[b.len() - 16..])) } else { hexd(b) }
+}
+
 /// The `wire <hex>` events of a `Sim` answer / settle.
 fn wires_of(evs: &[String]) -> Vec<String> {
     evs.iter().filter_map(|e| e.strip_prefix("wire ").map(str::to_string)).collect()
@@ -647,6 +693,9 @@ impl World {
         let mk = |rwnd: u32, thr: u32| SimOpts { rwnd, threshold: thr, accept_cap: 2, dgram_cap: 1, bind_cap: 0, max_retries: 2 };
         let mut p = Sim::new("P", mk(case.credit, case.thr_p));
         let mut b = Sim::new("B", mk(case.rwnd_b, case.thr_b));
+        let compact = case.is_huge();
+        p.compact = compact;
+        b.compact = compact;
         // P opens, B accepts; the handshake frames are moved by hand
         let (_, evs) = split_answer(&p.apply(&["open", "1", "6c", "80"]));
         let connect = wires_of(&evs);
@@ -689,6 +738,8 @@ impl World {
             unused_api: false,
             offered_end: 0,
             local_err: false,
+            dropped: 0,
+            fill_parked: false,
         }));
         let local = ScriptedLocal { buf: vec![], sh: sh.clone() };
         let bridge: Pin<Box<dyn DFut>> = Box::pin(stream.into_copy_bidirectional_with_buf(local));
@@ -729,9 +780,13 @@ impl World {
             moved: false,
             dead_peer: false,
             // bulk cases: the peer application reads whole frames, so that 64 reads drain everything
-            final_read: if case.lfill.iter().any(|a| matches!(a, Ans::Ready(d) if d.len() > 1024)) { 1 << 18 } else { 4096 },
+            final_read: if compact { 1 << 24 } else if case.lfill.iter().any(|a| matches!(a, Ans::Ready(d) if d.len() > 1024)) { 1 << 18 } else { 4096 },
             frame_starts: vec![],
             acked: 0,
+            compact,
+            peer_got: vec![],
+            src_total: lead_total(case.lfill.iter()),
+            drained: false,
         }
     }
 
@@ -900,6 +955,11 @@ and writes only when its own stream grants credit: {handed} Push frames handed t
     fn peer(&mut self, toks: &[&str]) -> String {
         let (res, evs) = split_answer(&self.p.apply(toks));
         self.trace.push(abbr(&format!("peer {} => {res}", toks.join(" "))));
+        if toks[0] == "read" {
+            if let Some(d) = res.strip_prefix("data ").and_then(unhexz) {
+                self.peer_got.extend_from_slice(&d);
+            }
+        }
         self.pump(wires_of(&evs), vec![]);
         res
     }
@@ -977,14 +1037,23 @@ and writes only when its own stream grants credit: {handed} Push frames handed t
             format!("{}{n}", if s.starts_with("Transferring") { "T" } else { "D" })
         });
         let cr: i64 = field(&dbg, "psh_send_remaining: ").and_then(|s| s.parse().ok()).unwrap_or(-1);
-        let call_toks: Vec<String> = calls.iter().map(LCall::tok).collect();
+        let compact = self.compact;
+        let call_toks: Vec<String> = calls.iter().map(|c| c.tok(compact)).collect();
         let line = format!(
             "res={} rs={rs} ws={ws} in={} out={} fin={} cr={cr} mw={mw} calls={}",
             res.tok(),
             hexd(&accepted[acc0..]),
-            if pushes.is_empty() { "-".to_string() } else { pushes.iter().map(|p| hex(p)).collect::<Vec<_>>().join(",") },
+            if pushes.is_empty() { "-".to_string() } else { pushes.iter().map(|p| if compact { hexz(p) } else { hex(p) }).collect::<Vec<_>>().join(",") },
             fins,
-            if call_toks.is_empty() { "-".to_string() } else { call_toks.join(",") },
+            if call_toks.is_empty() {
+                "-".to_string()
+            } else if compact && call_toks.len() > 24 {
+                // (a huge case's line is for the reader only)
+                let fills = calls.iter().filter(|c| matches!(c, LCall::Fill(_))).count();
+                format!("{},..({} calls in all, {fills} of them poll_fill_buf)..,{}", call_toks[..8].join(","), call_toks.len(), call_toks[call_toks.len() - 6..].join(","))
+            } else {
+                call_toks.join(",")
+            },
         );
         self.reqs.push("poll".into());
         self.lines.push(line.clone());
@@ -1062,10 +1131,10 @@ and writes only when its own stream grants credit: {handed} Push frames handed t
             self.fail("consume-order", "bytes consumed from the local side are not a prefix of the bytes it handed out".into());
         }
         if !matches!(res, Res::Err(_) | Res::Panic(_)) && !self.aborted && out_now != consumed {
-            self.fail("relay-out", format!("after poll #{n}: Push payloads sent {} differ from the bytes consumed from the local side {}", hexd(&out_now), hexd(&consumed)));
+            self.fail("relay-out", format!("after poll #{n}: Push payloads sent {} differ from the bytes consumed from the local side {}", show(&out_now), show(&consumed)));
         }
         if !consumed.starts_with(&out_now) && !self.aborted {
-            self.fail("relay-out", format!("after poll #{n}: Push payloads sent {} are not a prefix of the bytes consumed {}", hexd(&out_now), hexd(&consumed)));
+            self.fail("relay-out", format!("after poll #{n}: Push payloads sent {} are not a prefix of the bytes consumed {}", show(&out_now), show(&consumed)));
         }
         // one unit of credit per frame
         let sent_now = self.sent_frames + pushes.len() as u64;
@@ -1128,7 +1197,7 @@ and writes only when its own stream grants credit: {handed} Push frames handed t
                 } else if accepted == self.delivered && !rx_end0 {
                     self.blocked_r = Some(Block::MuxRead);
                 } else {
-                    self.fail("read-stalled", format!("poll #{n} returned Pending, the read direction is not blocked on any operation (data or end-of-stream available, last local call {:?})", last_r.map(LCall::tok)));
+                    self.fail("read-stalled", format!("poll #{n} returned Pending, the read direction is not blocked on any operation (data or end-of-stream available, last local call {:?})", last_r.map(|c| c.tok(compact))));
                 }
             }
             if !write_done {
@@ -1164,6 +1233,9 @@ and writes only when its own stream grants credit: {handed} Push frames handed t
                     v.push(s.take().expect("slot").0);
                 }
             }
+            if sh.slots[SLOT_FILL].is_none() {
+                sh.fill_parked = false;
+            }
             v
         };
         self.trace.push(format!("local wakes {} waker(s)", ws.len()));
@@ -1175,6 +1247,9 @@ and writes only when its own stream grants credit: {handed} Push frames handed t
     fn coop(&mut self) {
         {
             let mut sh = self.sh.lock().expect("sh");
+            if !sh.eof_given {
+                sh.dropped += lead_total(sh.lfill.iter());
+            }
             sh.lfill.clear();
             sh.lwrite.clear();
             sh.lwrite_rep = None;
@@ -1231,6 +1306,124 @@ and writes only when its own stream grants credit: {handed} Push frames handed t
                 }
             }
             Step::Coop => self.coop(),
+            Step::Drain => self.drain(),
+        }
+    }
+
+    /// What the local source would hand out right now without any outside event: (bytes, then end-of-file?).
+    /// The unconsumed buffer, then the leading `Ready` answers of the fill script; an exhausted script answers
+    /// end-of-file.
+    fn source_ready(&self) -> (usize, bool) {
+        let sh = self.sh.lock().expect("sh");
+        if sh.eof_given {
+            return (0, false);
+        }
+        let mut n = sh.produced.len() - sh.consumed.len();
+        for a in &sh.lfill {
+            match a {
+                Ans::Ready(d) if d.is_empty() => return (n, true),
+                Ans::Ready(d) => n += d.len(),
+                _ => return (n, false),
+            }
+        }
+        (n, true)
+    }
+
+    /// The `drain` step: run to quiescence with both ends willing. The peer application reads until nothing
+    /// more is readable (its endpoint acknowledges, the frames are moved), the local side fires the wake-ups
+    /// it promised (`p1`), and the bridge task is polled whenever — and only when — its waker was woken.
+    /// Judged at quiescence:
+    /// * `hang`: the local source has data or end-of-file ready and holds no waker of the bridge (its last
+    ///   `poll_fill_buf` was not `Pending`), the stream has credit (units granted > frames sent; end-of-file
+    ///   alone needs none), nothing was reset or aborted — the write direction would make progress if polled —
+    ///   yet the bridge is Pending and nobody will wake it;
+    /// * `burst-not-delivered`: what the peer application has read differs from the bytes the bridge consumed
+    ///   from the local side (the peer kept reading; nothing was reset).
+    fn drain(&mut self) {
+        self.drained = true;
+        self.trace.push("-- drain: the peer reads whatever arrives, the local side fires its wake-ups, the bridge is polled whenever it is woken --".into());
+        let n = self.final_read.to_string();
+        for _round in 0..4096 {
+            if self.finished.is_some() {
+                break;
+            }
+            let mut progress = false;
+            if self.flag.is_set() {
+                self.poll_while_woken();
+                progress = true;
+            }
+            if self.p_alive {
+                for _ in 0..4096 {
+                    if !self.peer(&["read", "0", &n]).starts_with("data") {
+                        break;
+                    }
+                    progress = true;
+                }
+            }
+            let promised = self.sh.lock().expect("sh").slots.iter().any(|s| s.as_ref().is_some_and(|(_, later)| *later));
+            if promised {
+                self.lwake(false);
+                progress = true;
+            }
+            if !progress && !self.flag.is_set() {
+                break;
+            }
+        }
+        if self.finished.is_some() || self.flag.is_set() {
+            return;
+        }
+        let (ready, eof) = self.source_ready();
+        let (produced, consumed) = {
+            let sh = self.sh.lock().expect("sh");
+            (sh.produced.len(), sh.consumed.len())
+        };
+        let has_credit = self.granted > self.sent_frames;
+        let (local_err, fill_parked) = {
+            let sh = self.sh.lock().expect("sh");
+            (sh.local_err, sh.fill_parked)
+        };
+        let healthy = !self.closed && !self.aborted && self.p_alive && !local_err;
+        // (a `p0` answer = a local side that keeps the waker and never uses it: the bridge is parked with
+        // the right operation then, whatever the script would answer next)
+        if healthy && !fill_parked && ((ready > 0 && has_credit) || (ready == 0 && eof)) {
+            let line = self.lines.last().cloned().unwrap_or_default();
+            self.fail(
+                "hang",
+                format!(
+                    "quiescent with unsent data: the local side has {ready} byte(s){} ready ({consumed} of {} forwarded so far, {} read by the peer), the stream has credit \
+({} units granted, {} Push frames sent), the peer application has read everything that arrived and keeps reading, the bridge task was polled whenever it was woken, \
+yet it is Pending and not woken: nothing will ever poll it again (last poll: {line})",
+                    if eof { " and then end-of-file" } else { "" },
+                    self.src_total.max(produced),
+                    self.peer_got.len(),
+                    self.granted,
+                    self.sent_frames
+                ),
+            );
+        }
+        self.check_delivery("at quiescence");
+    }
+
+    /// Everything the bridge consumed from the local side has been read by the peer application, in order
+    /// (the peer has just read until nothing more was readable; nothing was reset or aborted).
+    fn check_delivery(&mut self, when: &str) {
+        if self.closed || self.aborted || !self.p_alive || matches!(self.finished, Some(Res::Err(_) | Res::Panic(_))) {
+            return;
+        }
+        let consumed = self.sh.lock().expect("sh").consumed.clone();
+        if self.peer_got != consumed {
+            let at = self.peer_got.iter().zip(&consumed).position(|(a, b)| a != b).unwrap_or(self.peer_got.len().min(consumed.len()));
+            self.fail(
+                "burst-not-delivered",
+                format!(
+                    "{when}: the peer application kept reading and has {} byte(s), the bridge has consumed {} from the local side; first difference at offset {at} \
+(peer {} / consumed {})",
+                    self.peer_got.len(),
+                    consumed.len(),
+                    show(&self.peer_got[at.min(self.peer_got.len())..]),
+                    show(&consumed[at.min(consumed.len())..])
+                ),
+            );
         }
     }
 
@@ -1283,6 +1476,32 @@ and writes only when its own stream grants credit: {handed} Push frames handed t
             self.fail(
                 "hang",
                 format!("both ends have finished and every operation would succeed, the bridge task was polled whenever it was woken, yet it is still Pending and not woken (last poll: {line})"),
+            );
+        }
+        self.final_delivery();
+    }
+
+    /// End of a case with a `drain` step that finished cleanly: the peer application reads the rest; it must
+    /// have everything the local source had to give (minus what the completion phase threw away), in order,
+    /// and the bridge's count for this direction must be that number.
+    fn final_delivery(&mut self) {
+        let Some(Res::Ok(_, w)) = self.finished.clone() else { return };
+        if !self.drained || self.closed || self.aborted || !self.p_alive {
+            return;
+        }
+        let n = self.final_read.to_string();
+        for _ in 0..4096 {
+            if !self.peer(&["read", "0", &n]).starts_with("data") {
+                break;
+            }
+        }
+        self.check_delivery("after a clean finish");
+        let dropped = self.sh.lock().expect("sh").dropped;
+        if w + dropped != self.src_total {
+            let src = self.src_total;
+            self.fail(
+                "burst-not-delivered",
+                format!("the bridge finished cleanly and reports {w} byte(s) forwarded to the stream, but the local source had {src} byte(s) before its end-of-file ({dropped} discarded by the harness's completion phase)"),
             );
         }
     }
@@ -1591,6 +1810,138 @@ fn bulk_in_case(rwnd: u32, thr: u32, wk: usize, shape: usize, rounds: usize) -> 
     Case { credit: rwnd.max(2), rwnd_b: rwnd, thr_p: 1, thr_b: thr, lfill, lwrite, lwrite_rep: false, lflush: vec![], lshut: vec![], steps }
 }
 
+const MIB: usize = 1 << 20;
+
+/// `total` bytes of one continuing pattern run (`k0`, `k0 + 1`, … mod 251) cut into pieces of the given sizes
+/// (the size list is cycled): every contiguous stretch of the source is again a pattern run, so whatever the
+/// bridge coalesces into one frame is written as one `z` token.
+fn pattern_pieces(total: usize, k0: u8, mut size: impl FnMut() -> usize) -> Vec<Ans<Vec<u8>>> {
+    let mut out = vec![];
+    let mut off = 0;
+    while off < total {
+        let n = size().clamp(1, total - off);
+        out.push(Ans::Ready(pattern(n, ((usize::from(k0) + off) % 251) as u8)));
+        off += n;
+    }
+    out
+}
+
+/// Huge burst: the local source has 4–10 MiB readable at once — every `poll_fill_buf` is `Ready` with a piece
+/// of 8 KiB … 1 MiB until the data is exhausted; then end-of-file, or `Pending` with a wake-up and a last
+/// small piece, or `Pending` for good (the completion phase ends the source). The local sink accepts
+/// everything, the peer keeps reading and acknowledging (window 1–8, acknowledgement threshold ≤ window, so
+/// credit is never the limit for long), the run is driven to quiescence by a `drain` step. Variants: the
+/// burst is there at the first poll / arrives at a bridge that has already forwarded a small message and is
+/// parked / the peer has sent a little before.
+fn huge_case(seed: u64, k: usize) -> Case {
+    let mut r = Rng::new(seed).fork(0x4855_4745 + k as u64);
+    let total = match k % 6 {
+        0 => 6 * MIB,
+        1 => 4 * MIB,
+        2 => 4 * MIB + 1,
+        3 => 10 * MIB,
+        _ => r.range(4 * MIB as u64 + 2, 10 * MIB as u64) as usize,
+    };
+    const SIZES: [usize; 6] = [8 << 10, 16 << 10, 32 << 10, 64 << 10, 256 << 10, 1 << 20];
+    let k0 = r.below(251) as u8;
+    let fixed = match k {
+        0 => 64 << 10,
+        1 => 1 << 20,
+        2 => 8 << 10,
+        _ => *r.pick(&SIZES),
+    };
+    let mode = if k < 3 { 0 } else { r.below(3) };
+    let mut r2 = r.fork(7);
+    let mut pieces = pattern_pieces(total, k0, || match mode {
+        0 => fixed,
+        1 => *r2.pick(&SIZES),
+        _ => r2.range(8 << 10, 1 << 20) as usize,
+    });
+    let (variant, tail) = if k < 3 { (k as u64, 0) } else { (r.below(3), r.below(3)) };
+    let mut lfill = vec![];
+    let mut steps = vec![];
+    match variant {
+        0 => {
+            if r.chance(1, 2) {
+                steps.push(Step::Poll);
+            }
+        }
+        1 => {
+            // a bridge that has forwarded a small message and is parked on the local side
+            lfill.push(Ans::Ready(vec![0xfd, 0xfe, 0xff]));
+            lfill.push(Ans::Pending(true));
+            steps.push(Step::Poll);
+        }
+        _ => {
+            steps.push(Step::PeerWrite(vec![1, 2, 3]));
+            steps.push(Step::Poll);
+        }
+    }
+    lfill.append(&mut pieces);
+    match tail {
+        0 => {}
+        1 => {
+            lfill.push(Ans::Pending(true));
+            lfill.push(Ans::Ready(pattern(2048, ((usize::from(k0) + total) % 251) as u8)));
+        }
+        _ => lfill.push(Ans::Pending(false)),
+    }
+    steps.push(Step::Drain);
+    let credit = r.range(1, 8) as u32;
+    let rwnd_b = r.range(2, 8) as u32;
+    Case {
+        credit,
+        rwnd_b,
+        thr_p: r.range(1, u64::from(credit)) as u32,
+        thr_b: r.range(1, u64::from(rwnd_b)) as u32,
+        lfill,
+        lwrite: vec![],
+        lwrite_rep: false,
+        lflush: vec![],
+        lshut: vec![],
+        steps,
+    }
+}
+
+/// The same shape at a scale the model can follow (these cases ARE compared with the model): 4–40 pieces of
+/// 1–4 bytes readable at once, now and then a `Pending` among them, driven by `drain` steps.
+fn mini_burst_case(seed: u64, k: usize) -> Case {
+    let mut r = Rng::new(seed).fork(0x4d49_4e49 + k as u64);
+    let mut lb = Bytegen { next: 0, base: 0x80 };
+    let mut pb = Bytegen { next: 0, base: 0x01 };
+    let mut lfill = vec![];
+    for _ in 0..r.range(4, 40) {
+        match r.below(24) {
+            0 => lfill.push(Ans::Pending(false)),
+            1..=3 => lfill.push(Ans::Pending(true)),
+            _ => lfill.push(Ans::Ready(lb.take(r.range(1, 4) as usize))),
+        }
+    }
+    if r.chance(1, 3) {
+        lfill.push(Ans::Ready(vec![]));
+    }
+    let lwrite = if r.chance(1, 3) { vec![Ans::Ready(1), Ans::Pending(true), Ans::Ready(64)] } else { vec![] };
+    let mut steps = vec![];
+    for _ in 0..r.range(1, 3) {
+        match r.below(5) {
+            0 => steps.push(Step::Poll),
+            1 => steps.push(Step::PeerWrite(pb.take(r.range(1, 3) as usize))),
+            2 => {
+                steps.push(Step::PeerWrite(pb.take(2)));
+                steps.push(Step::Poll);
+            }
+            _ => {}
+        }
+        steps.push(Step::Drain);
+    }
+    if r.chance(1, 4) {
+        steps.push(Step::PeerFin);
+        steps.push(Step::Drain);
+    }
+    let credit = r.range(1, 3) as u32;
+    Case { credit, rwnd_b: r.range(1, 4) as u32, thr_p: r.range(1, u64::from(credit)) as u32, thr_b: 1, lfill, lwrite, lwrite_rep: false, lflush: vec![], lshut: vec![], steps }
+}
+
 const DEEP_FILL_EVS: usize = 5;
 const DEEP_WRITE_EVS: usize = 4;
 
@@ -1601,6 +1952,9 @@ struct Plan {
     bulk: Vec<(Vec<usize>, u8)>,
     /// bulk-in: (receive window, acknowledgement threshold) of the bridge's endpoint, rounds of back-pressure
     bulk_in: Vec<(u32, u32, usize)>,
+    /// huge-burst cases (monitor-only) and their small-scale, model-compared analogues
+    n_huge: usize,
+    n_mini: usize,
     /// bounded-exhaustive: locals × evs × credit {1, 2}
     locals: Vec<LocalScripts>,
     evs: Vec<Vec<MuxEv>>,
@@ -1614,7 +1968,8 @@ struct Plan {
 }
 
 impl Plan {
-    fn new(corpus: Vec<(String, Case)>, kl: usize, km: usize, kd: usize, n_short: usize, n_long: usize, seed: u64, bulk_all: bool) -> Self {
+    #[allow(clippy::too_many_arguments)]
+    fn new(corpus: Vec<(String, Case)>, kl: usize, km: usize, kd: usize, n_short: usize, n_long: usize, seed: u64, bulk_all: bool, n_huge: usize, n_mini: usize) -> Self {
         // One poll finds all of this readable: the coalescing loop takes chunk after chunk for ONE unit of
         // credit, so whatever the sizes exactly one Push may leave (64 KiB = 65536 and the 5-byte frame
         // header are the boundaries a size limit on the message would sit at).
@@ -1655,6 +2010,8 @@ impl Plan {
             corpus,
             bulk,
             bulk_in,
+            n_huge,
+            n_mini,
             locals: local_combinations(kl),
             evs: seqs(&ev_alpha, km),
             deep_fills: seqs(&fill_alpha(), kd),
@@ -1681,7 +2038,12 @@ impl Plan {
         self.n_bulk_out() + self.n_bulk_in()
     }
     fn len(&self) -> usize {
-        self.corpus.len() + self.n_bulk() + self.n_exhaustive() + self.n_deep() + self.n_short + self.n_long
+        self.corpus.len() + self.n_bulk() + self.n_huge + self.n_mini + self.n_exhaustive() + self.n_deep() + self.n_short + self.n_long
+    }
+    /// index range of the huge-burst cases
+    fn huge_range(&self) -> std::ops::Range<usize> {
+        let lo = self.corpus.len() + self.n_bulk();
+        lo..lo + self.n_huge
     }
     fn get(&self, mut i: usize) -> (String, Case) {
         if i < self.corpus.len() {
@@ -1708,6 +2070,14 @@ impl Plan {
             return ("bulk".into(), c);
         }
         i -= self.n_bulk();
+        if i < self.n_huge {
+            return ("huge-burst".into(), huge_case(self.seed, i));
+        }
+        i -= self.n_huge;
+        if i < self.n_mini {
+            return ("mini-burst".into(), mini_burst_case(self.seed, i));
+        }
+        i -= self.n_mini;
         if i < self.n_exhaustive() {
             let credit = 1 + (i % 2) as u32;
             let e = &self.evs[(i / 2) % self.evs.len()];
@@ -1766,8 +2136,41 @@ impl Plan {
 // Evaluation, shrinking, reporting
 // ---------------------------------------------------------------------------------------------
 
+/// Adjacent `Ready` pieces of a fill script merged and cut again into pieces of `size` bytes.
+fn rechunk(lfill: &[Ans<Vec<u8>>], size: usize) -> Vec<Ans<Vec<u8>>> {
+    let mut out = vec![];
+    let mut run: Vec<u8> = vec![];
+    let flush = |run: &mut Vec<u8>, out: &mut Vec<Ans<Vec<u8>>>| {
+        out.extend(run.chunks(size).map(|c| Ans::Ready(c.to_vec())));
+        run.clear();
+    };
+    for a in lfill {
+        match a {
+            Ans::Ready(d) if !d.is_empty() => run.extend_from_slice(d),
+            other => {
+                flush(&mut run, &mut out);
+                out.push(other.clone());
+            }
+        }
+    }
+    flush(&mut run, &mut out);
+    out
+}
+
 fn shrink_case(case: &Case, mut fails: impl FnMut(&Case) -> bool) -> Case {
     let mut c = case.clone();
+    if c.is_huge() {
+        // one run costs a large fraction of a second: coarser pieces (a short case text), fewer steps, no more
+        for size in [4 * MIB, MIB] {
+            let cand = Case { lfill: rechunk(&c.lfill, size), ..c.clone() };
+            if cand.lfill.len() < c.lfill.len() && fails(&cand) {
+                c = cand;
+                break;
+            }
+        }
+        c.steps = shrink_list(c.steps.clone(), |s| fails(&Case { steps: s.to_vec(), ..c.clone() }));
+        return c;
+    }
     for _round in 0..3 {
         let before = c.clone();
         let steps = shrink_list(c.steps.clone(), |s| fails(&Case { steps: s.to_vec(), ..c.clone() }));
@@ -1825,20 +2228,22 @@ fn diff_answers(o: &Outcome, answers: &[String]) -> Option<(usize, String, Strin
 }
 
 /// Run a group of cases, ask the model about all of them in one batch, judge each.
-fn evaluate_group(group: &[(String, Case)], mode: &str, part: &mut Part, drv: &mut Option<Driver>, credit_only: bool) {
+fn evaluate_group(group: &[(String, Case)], mode: &str, part: &mut Part, drv: &mut Option<Driver>, focus: Focus) {
     let outs: Vec<Outcome> = group.iter().map(|(_, c)| run_caught(c, mode)).collect();
+    // (huge cases are judged by the monitors only)
+    let huge: Vec<bool> = group.iter().map(|(_, c)| c.is_huge()).collect();
     let answers: Option<Vec<String>> = drv.as_mut().map(|d| {
-        let all: Vec<String> = outs.iter().flat_map(|o| o.reqs.iter().cloned()).collect();
+        let all: Vec<String> = outs.iter().zip(&huge).filter(|(_, h)| !**h).flat_map(|(o, _)| o.reqs.iter().cloned()).collect();
         d.batch(&all)
     });
     let mut at = 0;
-    for ((origin, case), o) in group.iter().zip(outs) {
-        let pre = answers.as_ref().map(|a| {
+    for (((origin, case), o), h) in group.iter().zip(outs).zip(huge) {
+        let pre = answers.as_ref().filter(|_| !h).map(|a| {
             let sl = &a[at..at + o.reqs.len()];
             at += o.reqs.len();
             diff_answers(&o, sl)
         });
-        evaluate(case, origin, mode, part, drv, o, pre, credit_only);
+        evaluate(case, origin, mode, part, drv, o, pre, focus);
         if part.failures.len() >= 8 {
             break;
         }
@@ -1848,8 +2253,37 @@ fn evaluate_group(group: &[(String, Case)], mode: &str, part: &mut Part, drv: &m
 /// The monitors that speak about credit (C03's share of the bridge).
 const CREDIT_KEYS: [&str; 4] = ["credit-overrun", "credit-per-frame", "ack-before-consume", "peer-reset-for-overrun"];
 
+/// The monitors that speak about progress (C04's share of the bridge: the forwarding loop is the library's own
+/// writer on a stream whose reader keeps reading): parked with work to do and nobody to wake it, a wake-up
+/// that does not arrive, bytes of the burst that never reach the reading peer.
+const STALL_KEYS: [&str; 8] =
+    ["hang", "pending-without-waker", "read-stalled", "lost-wakeup-read", "lost-wakeup-credit", "mux-waker-missing", "no-completion", "burst-not-delivered"];
+/// … all reported under this key when the focus is C04
+const STALL_KEY: &str = "bridge-stalled";
+
+#[derive(Clone, Copy, Debug, PartialEq, Eq)]
+enum Focus {
+    C13,
+    C03,
+    C04,
+}
+
+impl Focus {
+    /// The key a monitor's failure is reported under by this run (`None`: not this property's business).
+    fn key(self, k: &str) -> Option<String> {
+        match self {
+            Focus::C13 => Some(k.to_string()),
+            Focus::C03 => CREDIT_KEYS.contains(&k).then(|| k.to_string()),
+            Focus::C04 => STALL_KEYS.contains(&k).then(|| STALL_KEY.to_string()),
+        }
+    }
+    fn desc(self, k: &str, d: &str) -> String {
+        if self == Focus::C04 { format!("[{k}] {d}") } else { d.to_string() }
+    }
+}
+
 #[allow(clippy::too_many_arguments)]
-fn evaluate(case: &Case, origin: &str, mode: &str, part: &mut Part, drv: &mut Option<Driver>, o: Outcome, pre: Option<Option<(usize, String, String)>>, credit_only: bool) {
+fn evaluate(case: &Case, origin: &str, mode: &str, part: &mut Part, drv: &mut Option<Driver>, o: Outcome, pre: Option<Option<(usize, String, String)>>, focus: Focus) {
     let text = case.to_text();
     part.evaluations += 1;
     // non-trivial: at least one byte was relayed, or a direction was closed / failed beyond the first fill
@@ -1877,11 +2311,18 @@ fn evaluate(case: &Case, origin: &str, mode: &str, part: &mut Part, drv: &mut Op
     if part.samples.len() < 4 && o.moved && o.polls >= 3 {
         part.samples.push(json!({"case": text, "trace": o.trace.iter().take(30).collect::<Vec<_>>()}));
     }
-    for (key, _) in o.fails.iter().filter(|f| !credit_only || CREDIT_KEYS.contains(&f.0.as_str())) {
+    for (key, _) in &o.fails {
+        let Some(rkey) = focus.key(key) else { continue };
+        if part.failures.iter().any(|f| f.1 == rkey) {
+            continue;
+        }
         let small = shrink_case(case, |c| run_caught(c, mode).fails.iter().any(|f| &f.0 == key));
         let o2 = run_caught(&small, mode);
         let desc = o2.fails.iter().find(|f| &f.0 == key).map_or_else(|| key.clone(), |f| f.1.clone());
-        part.fail(FailKind::Impl, key, &desc, json!({"case": small.to_text(), "trace": o2.trace}));
+        part.fail(FailKind::Impl, &rkey, &focus.desc(key, &desc), json!({"case": small.to_text(), "trace": o2.trace}));
+    }
+    if case.is_huge() {
+        part.count("model/not-compared:huge-case-monitors-only");
     }
     if let (Some(d), Some(pre)) = (drv.as_mut(), pre) {
         part.compared += 1;
@@ -1905,7 +2346,7 @@ fn evaluate(case: &Case, origin: &str, mode: &str, part: &mut Part, drv: &mut Op
     }
 }
 
-fn replay(path: &str, mode: &str, credit_only: bool) -> i32 {
+fn replay(path: &str, mode: &str, focus: Focus) -> i32 {
     let text = std::fs::read_to_string(path).expect("read replay file");
     let case_text = if path.ends_with(".json") {
         let v: pvh::Value = serde_json::from_str(&text).expect("replay json");
@@ -1923,7 +2364,7 @@ fn replay(path: &str, mode: &str, credit_only: bool) -> i32 {
     for l in &o.trace {
         println!("{l}");
     }
-    let fails: Vec<&(String, String)> = o.fails.iter().filter(|f| !credit_only || CREDIT_KEYS.contains(&f.0.as_str())).collect();
+    let fails: Vec<(String, String)> = o.fails.iter().filter_map(|(k, d)| focus.key(k).map(|rk| (rk, focus.desc(k, d)))).collect();
     for (k, d) in &fails {
         println!("FAILS {k}: {d}");
     }
@@ -1940,17 +2381,24 @@ fn main() {
     // `--focus C03`: the run that C03's check makes (copy_bidirectional.rs is one of the places where credit
     // is taken and Push frames are sent): the bulk family, the small enumerated families and random cases;
     // only the credit monitors are reported (everything else about the bridge is C13's).
-    let credit_only = match args.opt("--focus") {
-        None | Some("C13") => false,
-        Some("C03") => true,
+    // `--focus C04`: the run that C04's check makes (the forwarding loop is the library's own writer on a
+    // stream; "every write at the sending end completes and every byte written becomes readable while the
+    // receiving application keeps reading" must hold for what it forwards): the huge-burst family, its
+    // small-scale analogue, the bulk families, the small enumerated families and random cases; only the
+    // progress monitors (`STALL_KEYS`) are reported, all under the key `bridge-stalled`.
+    let focus = match args.opt("--focus") {
+        None | Some("C13") => Focus::C13,
+        Some("C03") => Focus::C03,
+        Some("C04") => Focus::C04,
         Some(other) => panic!("unknown focus {other}"),
     };
     if let Some(p) = &args.replay {
-        std::process::exit(replay(p, mode, credit_only));
+        std::process::exit(replay(p, mode, focus));
     }
     let rule = "one case = local scripts (answers to poll_fill_buf / poll_write / poll_flush / poll_shutdown) x a step list \
 (bridge polls, local wake-ups, peer writes / reads / Finish / Reset, connection abort) run on the real CopyBidirectional over a real \
-MuxStream of a real endpoint pair, followed by a co-operative completion phase in which the bridge is polled only when woken; \
+MuxStream of a real endpoint pair (a `drain` step = run to quiescence: the peer reads whatever arrives, the local side fires its wake-ups, the bridge is \
+polled only when woken), followed by a co-operative completion phase in which the bridge is polled only when woken; \
 non-trivial = at least one byte was relayed or the bridge was polled at least twice; distinct by case text";
     let mut rep = Report::new("bridge", &args, rule);
 
@@ -1958,29 +2406,51 @@ non-trivial = at least one byte was relayed or the bridge was polled at least tw
     for (name, text) in pvh::corpus_files(args.corpus.as_deref()) {
         match Case::parse(&text) {
             Some(c) => corpus.push((format!("corpus:{name}"), c)),
-            // (C03's corpus directory belongs to the mux harness)
-            None if credit_only => {}
+            // (C03's and C04's corpus directories belong to the mux harness)
+            None if focus != Focus::C13 => {}
             None => rep.fail(FailKind::Model, &format!("corpus:{name}"), "corpus file does not parse", json!({"file": name})),
         }
     }
-    let (kl, km, kd, n_short, n_long) = match (args.tier, credit_only) {
-        (Tier::Quick, false) => (2, 1, 3, 1500, 500),
-        (Tier::Thorough, false) => (4, 3, 6, 300_000, 100_000),
-        (Tier::Quick, true) => (1, 1, 2, 600, 200),
-        (Tier::Thorough, true) => (2, 2, 4, 30_000, 10_000),
+    let (kl, km, kd, n_short, n_long) = match (args.tier, focus == Focus::C13) {
+        (Tier::Quick, true) => (2, 1, 3, 1500, 500),
+        (Tier::Thorough, true) => (4, 3, 6, 300_000, 100_000),
+        (Tier::Quick, false) => (1, 1, 2, 600, 200),
+        (Tier::Thorough, false) => (2, 2, 4, 30_000, 10_000),
     };
+    // huge bursts (4-10 MiB readable at once; a case costs a good fraction of a second, each runs on its own
+    // thread) and their small-scale analogues; not part of C03's run
+    let (n_huge, n_mini) = match (args.tier, focus) {
+        (_, Focus::C03) => (0, 0),
+        (Tier::Quick, Focus::C13) => (6, 400),
+        (Tier::Quick, Focus::C04) => (8, 400),
+        (Tier::Thorough, _) => (48, 20_000),
+    };
+    let n_huge = args.opt("--huge").and_then(|s| s.parse().ok()).unwrap_or(n_huge);
     let (kl, km, kd) = (
         args.opt("--kl").and_then(|s| s.parse().ok()).unwrap_or(kl),
         args.opt("--km").and_then(|s| s.parse().ok()).unwrap_or(km),
         args.opt("--kd").and_then(|s| s.parse().ok()).unwrap_or(kd),
     );
-    let plan = Plan::new(corpus, kl, km, kd, n_short, n_long, args.seed, args.tier == Tier::Thorough);
+    let plan = Plan::new(corpus, kl, km, kd, n_short, n_long, args.seed, args.tier == Tier::Thorough, n_huge, n_mini);
     let n_bulk = plan.n_bulk();
     let n_enum = plan.n_exhaustive() + plan.n_deep();
     let total = plan.len();
     let threads = std::thread::available_parallelism().map_or(4, std::num::NonZero::get).min(16).min(total.max(1));
     const BLOCK: usize = 64;
-    let n_blocks = total.div_ceil(BLOCK);
+    // blocks of case indices; every huge case is a block of its own and these come first, so that they
+    // are spread over the workers
+    let hr = plan.huge_range();
+    let mut blocks: Vec<std::ops::Range<usize>> = hr.clone().map(|i| i..i + 1).collect();
+    for part in [0..hr.start, hr.end..total] {
+        let mut lo = part.start;
+        while lo < part.end {
+            let hi = (lo + BLOCK).min(part.end);
+            blocks.push(lo..hi);
+            lo = hi;
+        }
+    }
+    let blocks = &blocks;
+    let n_blocks = blocks.len();
     let driver = args.driver.clone();
     let plan = &plan;
     let parts: Vec<Part> = std::thread::scope(|s| {
@@ -1992,8 +2462,8 @@ non-trivial = at least one byte was relayed or the bridge was polled at least tw
                     let mut drv = driver.as_deref().map(|p| Driver::spawn(p, &[]).expect("start Lean driver"));
                     let mut b = t;
                     while b < n_blocks {
-                        let group: Vec<(String, Case)> = (b * BLOCK..((b + 1) * BLOCK).min(total)).map(|i| plan.get(i)).collect();
-                        evaluate_group(&group, mode, &mut part, &mut drv, credit_only);
+                        let group: Vec<(String, Case)> = blocks[b].clone().map(|i| plan.get(i)).collect();
+                        evaluate_group(&group, mode, &mut part, &mut drv, focus);
                         if part.failures.len() >= 8 {
                             break;
                         }
@@ -2028,6 +2498,15 @@ every bridge poll, {} window/threshold pairs of the bridge's endpoint, the other
         plan.n_bulk_in(),
         plan.bulk_in.len()
     ));
+    rep.notes.push(format!(
+        "{n_huge} huge-burst cases: 4-10 MiB readable at once on the local side (every poll_fill_buf Ready with a piece of 8 KiB - 1 MiB until the data is exhausted, then end-of-file / Pending with a wake-up and a last piece / Pending for good), the local sink accepts everything, the peer (window 1-8) keeps reading and acknowledging, driven to quiescence (`drain`: the bridge is polled whenever and only when it is woken); MONITORS ONLY, not compared with the model (the model's byte strings are linked lists; these {n_huge} cases are not in the model-compared count); {n_mini} mini-burst cases of the same shape (4-40 pieces of 1-4 bytes, `drain` steps) which are compared with the model when a driver is given"
+    ));
+    if focus == Focus::C04 {
+        rep.notes.push(format!(
+            "focus C04: only the progress monitors are reported ({}), all under the key `{STALL_KEY}`; no model comparison in this run",
+            STALL_KEYS.join(", ")
+        ));
+    }
     rep.notes.push(format!(
         "{n_enum} enumerated cases: every combination of local scripts with at most {kl} answers in total over alphabets of 6/6/4/4 answers x every \
 mux-side event list of length <= {km} over 6 events x credit 1,2 (canonical schedule), plus single-script families up to {kd} answers; \
